@@ -25,6 +25,9 @@ type gen struct {
 	nfrag  int
 	useVar map[string]bool
 	labels int
+	// fragments that may be spread again, and their type conditions
+	fragNames []string
+	fragOn    map[string]string
 }
 
 var aliasPool = []string{"a", "b", "c", "x"}
@@ -226,6 +229,24 @@ func (g *gen) selection(def *ast.Definition, depth int, root bool) string {
 			sb.WriteString(g.selection(cd, depth-1, root && c == def.Name))
 			wrote++
 		default:
+			// now and then spread a fragment that exists already (same name, other directives)
+			if len(g.fragOn) > 0 && g.t.Bool(1, 3, "respread") {
+				var fit []string
+				conds := g.typeConds(def)
+				for _, name := range g.fragNames {
+					for _, c := range conds {
+						if g.fragOn[name] == c {
+							fit = append(fit, name)
+						}
+					}
+				}
+				if len(fit) > 0 {
+					sb.WriteString(" ..." + fit[g.t.Choose(len(fit), "which-frag")])
+					sb.WriteString(g.cond())
+					wrote++
+					continue
+				}
+			}
 			conds := g.typeConds(def)
 			c := conds[g.t.Choose(len(conds), "tcond")]
 			cd := g.s.Types[c]
@@ -233,6 +254,12 @@ func (g *gen) selection(def *ast.Definition, depth int, root bool) string {
 			name := fmt.Sprintf("F%d", g.nfrag)
 			body := g.selection(cd, depth-1, root && c == def.Name)
 			g.frags = append(g.frags, fmt.Sprintf("fragment %s on %s %s", name, c, body))
+			if !strings.Contains(body, "@defer") && !root {
+				// (fragments with deferred parts are spread once: a second spread would make one
+				// group deliver the same fields twice, which is C13's subject, not collection's)
+				g.fragNames = append(g.fragNames, name)
+				g.fragOn[name] = c
+			}
 			sb.WriteString(" ..." + name)
 			sb.WriteString(g.cond())
 			if !root {
@@ -254,7 +281,7 @@ func (g *gen) selection(def *ast.Definition, depth int, root bool) string {
 // candidate and reports how many candidates were discarded. ok=false means none was found.
 func Generate(s *ast.Schema, t *core.Tape, o GenOpts) (op Op, discarded int, ok bool) {
 	for try := 0; try < 6; try++ {
-		g := &gen{s: s, t: t, o: o, useVar: map[string]bool{}}
+		g := &gen{s: s, t: t, o: o, useVar: map[string]bool{}, fragOn: map[string]string{}}
 		root := s.Query
 		kw := "query"
 		if o.Mutation {
